@@ -41,7 +41,8 @@ HARNESSES = {
     "C19": [
         H("c19_distance_not_nan", "lib", "C19.K.distance.not_nan", bounded="one infoset of 2 actions / empty player; entries any f64 in [0,1]; p in {1, 2} (powf modelled exactly)"),
         H("c19_distance_symmetric_grid", "lib", "C19.K.distance.symmetric", bounded="one infoset of 2 actions; entries on the grid {0, 1/4, 1/2, 3/4, 1}; p in {1, 2}"),
-        H("c19_distance_symmetric", "lib", "C19.K.distance.symmetric", bounded="as above, entries any f64 in [0,1]", tier="thorough", timeout=3600),
+        # full-domain symmetry: CaDiCaL did not decide it in 3600 s (cvc5 aborts on the boxed game) -> not run
+        H("c19_distance_symmetric", "lib", "C19.K.distance.symmetric", bounded="as above, entries any f64 in [0,1]", tier="experimental", timeout=3600),
         H("c19_distance_zero_iff_equal", "lib", "C19.K.distance.zero_iff_equal", bounded="as above"),
         H("c19_distance_range_upper", "lib", "C19.K.distance.range_upper", bounded="as above"),
         H("c19_distance_range_residual", "lib", "C19.K.distance.range_residual", bounded="one infoset of 2 actions; entries on the grid {0, 1/4, 1/2, 3/4, 1}; p in {1, 2}"),
